@@ -103,6 +103,23 @@ return p
 """
 
 
+WORK = r"""
+local p = {}
+function p.heavy(frame)
+  local s = 0
+  for i = 1, 400000 do s = s + i % 7 end
+  return tostring(s)
+end
+function p.catch(frame)
+  local ok, e = pcall(error, "boom")
+  local ok2, e2 = xpcall(function() error("bang") end, function(m) return "H" end)
+  return tostring(ok) .. tostring(ok2) .. tostring(e2)
+end
+return p
+"""
+
+
 def install(ctx):
+    ctx.add_page("Module:work", 828, WORK, model="Scribunto")
     ctx.add_page("Module:echo", 828, ECHO, model="Scribunto")
     ctx.add_page("Module:bad", 828, BAD, model="Scribunto")
